@@ -25,6 +25,7 @@ import (
 	"go/ast"
 	"go/build"
 	"go/constant"
+	"go/importer"
 	"go/parser"
 	"go/token"
 	"go/types"
@@ -45,6 +46,7 @@ type loader struct {
 	fset  *token.FileSet
 	tags  []string
 	cache map[string]*pkgInfo
+	timePkg *types.Package
 }
 
 type pkgInfo struct {
@@ -67,6 +69,18 @@ func (l *loader) ImportFrom(path, dir string, mode types.ImportMode) (*types.Pac
 		p.Scope().Insert(tn)
 		p.MarkComplete()
 		return p, nil
+	}
+	if path == "time" {
+		// the real standard-library package, type-checked from GOROOT source: the control plane
+		// writes its mirrors of the kernel's nanosecond limits as `N * time.Second`
+		if l.timePkg == nil {
+			p, err := importer.ForCompiler(l.fset, "source", nil).Import("time")
+			if err != nil {
+				return nil, err
+			}
+			l.timePkg = p
+		}
+		return l.timePkg, nil
 	}
 	if path == modPath || strings.HasPrefix(path, modPath+"/") {
 		pi, err := l.load(strings.TrimPrefix(strings.TrimPrefix(path, modPath), "/"))
